@@ -210,3 +210,71 @@ func sortedKeys(m map[string]int64) []string {
 	sort.Strings(ks)
 	return ks
 }
+
+// StatsWire is Stats in a form that survives JSON (sets as slices): child
+// processes hand their counts to the parent with it.
+type StatsWire struct {
+	Runs, Calls, Units, Forks, SimTimeUs int64
+	Faults, Probes, Drivers, Verdicts    map[string]int64
+	Cuts                                 map[string]int64
+	Susp, Inter                          []uint64
+	Triples                              []string
+	Samples                              []json.RawMessage
+}
+
+func (s *Stats) Wire() *StatsWire {
+	w := &StatsWire{Runs: s.Runs, Calls: s.Calls, Units: s.Units, Forks: s.forks, SimTimeUs: s.SimTimeUs,
+		Faults: s.Faults, Probes: s.Probes, Drivers: s.Drivers, Verdicts: s.Verdicts, Cuts: s.Cuts, Samples: s.Samples}
+	for k := range s.Susp {
+		w.Susp = append(w.Susp, k)
+	}
+	for k := range s.Inter {
+		w.Inter = append(w.Inter, k)
+	}
+	for k := range s.Triples {
+		w.Triples = append(w.Triples, k)
+	}
+	return w
+}
+
+func (w *StatsWire) Stats() *Stats {
+	s := NewStats()
+	s.Runs, s.Calls, s.Units, s.forks, s.SimTimeUs = w.Runs, w.Calls, w.Units, w.Forks, w.SimTimeUs
+	for k, v := range w.Faults {
+		s.Faults[k] = v
+	}
+	for k, v := range w.Probes {
+		s.Probes[k] = v
+	}
+	for k, v := range w.Drivers {
+		s.Drivers[k] = v
+	}
+	for k, v := range w.Verdicts {
+		s.Verdicts[k] = v
+	}
+	for k, v := range w.Cuts {
+		s.Cuts[k] = v
+	}
+	for _, k := range w.Susp {
+		s.Susp[k] = struct{}{}
+	}
+	for _, k := range w.Inter {
+		s.Inter[k] = struct{}{}
+	}
+	for _, k := range w.Triples {
+		s.Triples[k] = struct{}{}
+	}
+	s.Samples = w.Samples
+	return s
+}
+
+// ChildResult is what a child process reports to the parent.
+type ChildResult struct {
+	Stats     *StatsWire
+	Found     *Found
+	KnownHits map[string]int64
+	KnownEx   map[string]string
+	Wall      float64
+	TimedOut  bool
+	Stalled   string
+}
